@@ -52,16 +52,19 @@ fn main() {
     }
     // the same alphabet with every weight multiplied by 2^-900 / 2^900 (one level shallower): total weights
     // far below f64::EPSILON and far above 2^53
-    let jobs: Vec<(usize, f64, usize, f64, usize)> = jobs.iter().map(|&(k, d, b)| (k, d, b, 1.0, depth))
-        .chain(td::wscales().iter().flat_map(|&ws| jobs.iter().map(move |&(k, d, b)| (k, d, b, ws, depth - 1)))).collect();
-    let res = par_map(&jobs, n_threads(), |&(k, d, b, ws, dep)| td::tree_scaled(k, d, b, dep, 15, nq, ws));
+    // (kind, delta, backlog, weight scale, depth, value scale): the weight-scaled trees, and the same with every VALUE
+    // multiplied by 2^-900 / 2^900 (values far below f64::EPSILON apart, and far above 2^53)
+    let jobs: Vec<(usize, f64, usize, f64, usize, f64)> = jobs.iter().map(|&(k, d, b)| (k, d, b, 1.0, depth, 1.0))
+        .chain(td::wscales().iter().flat_map(|&ws| jobs.iter().map(move |&(k, d, b)| (k, d, b, ws, depth - 1, 1.0))))
+        .chain(td::wscales().iter().flat_map(|&vs| jobs.iter().filter(|j| j.2 != 1).map(move |&(k, d, b)| (k, d, b, 1.0, depth - 2, vs)))).collect();
+    let res = par_map(&jobs, n_threads(), |&(k, d, b, ws, dep, vs)| td::tree_scaled2(k, d, b, dep, 15, nq, ws, vs));
     let (mut nodes, mut evals) = (0u64, 0u64);
-    for ((k, d, b, ws, _), out) in jobs.iter().zip(res) {
+    for ((k, d, b, ws, _, vs), out) in jobs.iter().zip(res) {
         nodes += out.nodes;
         evals += out.evals;
         for (sig, msg, hist) in out.viols {
-            run.violation(Viol { property: "C15".into(), signature: format!("tdigest {}", sig), message: format!("{}(delta={}) backlog={} weights x{:e}: {}", td::KIND_NAMES[*k], d, b, ws, msg),
-                replay: json!({"structure": "TDigest", "scale_function": td::KIND_NAMES[*k], "delta": d, "max_backlog_size": b, "every_weight_multiplied_by": ws, "history": hist.iter().map(|&o| td::op_name(o)).collect::<Vec<_>>()}) });
+            run.violation(Viol { property: "C15".into(), signature: format!("tdigest {}", sig), message: format!("{}(delta={}) backlog={} weights x{:e} values x{:e}: {}", td::KIND_NAMES[*k], d, b, ws, vs, msg),
+                replay: json!({"structure": "TDigest", "scale_function": td::KIND_NAMES[*k], "delta": d, "max_backlog_size": b, "every_weight_multiplied_by": ws, "every_value_multiplied_by": vs, "history": hist.iter().map(|&o| td::op_name(o)).collect::<Vec<_>>()}) });
         }
     }
     // structured digests (outer centroids with weight > 1)
